@@ -77,7 +77,8 @@ def oracle_nearest(stations, qlons, qlats, tol, unique, exact, missing, dl=dlon_
         # sqrt(x*x) == |x|); any other distance within EPS of the tolerance is don't-care.
         jmin = d.index(dmin)
         one_axis = dl(stations[jmin][0], ql) == 0.0 or stations[jmin][1] == qa
-        exact_eq = (dmin == tol) and one_axis
+        dyadic = all(float(v) * 64 == int(float(v) * 64) for v in (stations[jmin][0], stations[jmin][1], ql, qa, tol))
+        exact_eq = (dmin == tol) and one_axis and dyadic   # multiples of 1/64: every step (mod 360, difference, square root of a square) is exact
         if abs(dmin - tol) <= EPS and not exact_eq:
             return "dontcare", None
         ties = [j for j, x in enumerate(d) if x <= dmin + EPS]
